@@ -33,7 +33,7 @@ impl<const A: usize, const L: usize> MarketEnv<A, L> {
     }
 }
 
-use crate::env::verif_proofs::{gen_ev, l2_equal, Ev, EV_ANY};
+use crate::env::verif_proofs::{any_l2, gen_ev, l2_equal, Ev, EV_ANY};
 use rand::seq::SliceRandom;
 
 /// `MarketEnv::<2, L>::step` with `Market::process_event` replaced by the logging stand-in: the
@@ -79,6 +79,8 @@ pub fn market_step_loop<const N: usize, const L: usize, const NB: usize>(m: usiz
         }
         a += 1;
     }
+    // whatever the caches held before must not survive the step
+    env.level_2_data = [any_l2::<L>(), any_l2::<L>()];
     let mut i = 0;
     while i < NB {
         let id = (assets[i], evs[i].id);
@@ -171,6 +173,99 @@ pub fn market_step_loop<const N: usize, const L: usize, const NB: usize>(m: usiz
     core::mem::forget(env);
 }
 
+/// C10 / C08 for the multi-asset environment: one submission between steps on an arbitrary
+/// two-asset environment with one instruction already waiting (possibly the same instruction:
+/// duplicates must be queued, not merged)
+pub fn market_submit<const N: usize, const L: usize>(m: usize, cfg: GenCfg, which: u8, asset_fixed: usize) {
+    let p0: Plain<N> = gen_plain::<N>(m, cfg);
+    let mut p1: Plain<N> = gen_plain::<N>(m, cfg);
+    p1.t = p0.t;
+    p1.trading = p0.trading;
+    let (b0, old0) = build_with_log::<N, L>(&p0, cfg.ntrades);
+    let (b1, old1) = build_with_log::<N, L>(&p1, cfg.ntrades);
+    let t0 = build::<N, L>(&p0, 0);
+    let t1 = build::<N, L>(&p1, 0);
+    let market: Market<2, L> = Market::verif_from_books([b0, b1]);
+    let mut env: MarketEnv<2, L> = MarketEnv::verif_from_market(any_u64(), market);
+    let c0 = any_l2::<L>();
+    let c1 = any_l2::<L>();
+    let keep0: Level2Data<L> = Level2Data { bid_price: c0.bid_price, ask_price: c0.ask_price, bid_vol: c0.bid_vol, ask_vol: c0.ask_vol, bid_price_levels: c0.bid_price_levels, ask_price_levels: c0.ask_price_levels };
+    let keep1: Level2Data<L> = Level2Data { bid_price: c1.bid_price, ask_price: c1.ask_price, bid_vol: c1.bid_vol, ask_vol: c1.ask_vol, bid_price_levels: c1.bid_price_levels, ask_price_levels: c1.ask_price_levels };
+    env.level_2_data = [c0, c1];
+    // one instruction is already waiting
+    let w = gen_ev(m, 1, EV_ANY);
+    let wa = if any_bool() { 1usize } else { 0usize };
+    let wid = (wa, w.id);
+    env.transactions.push(match w.kind {
+        0 => Event::New { order_id: wid },
+        1 => Event::Cancellation { order_id: wid },
+        _ => Event::Modify { order_id: wid, new_price: w.np, new_vol: w.nv },
+    });
+    // (a creation through a symbolically addressed book pushes into a symbolically chosen vector:
+    // out of reach; the asset is concrete in the place harnesses)
+    let a = if asset_fixed < 2 { asset_fixed } else if any_bool() { 1usize } else { 0usize };
+    let id = any_usize();
+    let np = if any_bool() { Some(any_u32()) } else { None };
+    let nv = if any_bool() { Some(any_u32()) } else { None };
+    let mut created = [m, m];
+    let mut expect_queue = 2usize;
+    match which {
+        0 => {
+            let bid = any_bool();
+            let vol = any_u32();
+            let trader = any_u32();
+            let price = if any_bool() { Some(any_u32()) } else { None };
+            let tick = if a == 0 { p0.tick } else { p1.tick };
+            let on_grid = match price {
+                Some(px) => px % tick == 0,
+                None => true,
+            };
+            match env.place_order(a, if bid { Side::Bid } else { Side::Ask }, vol, trader, price) {
+                Ok(new_id) => {
+                    vcheck!(on_grid, "GRID.off_grid_creation_is_rejected");
+                    vcheck!(new_id == (a, m), "SUBMIT.ids_are_asset_and_per_asset_sequence_number");
+                    created[a] = m + 1;
+                    if env.market.get_order_book(a).verif_n_orders() == m + 1 {
+                        let o = env.order((a, m));
+                        let want = match price {
+                            Some(px) => px,
+                            None => if bid { Price::MAX } else { 0 },
+                        };
+                        vcheck!(o.status == Status::New && matches!(o.side, Side::Bid) == bid && o.vol == vol && o.start_vol == vol && o.price == want && o.trader_id == trader && o.order_id == m && o.arr_time == p0.t,
+                            "SUBMIT.new_order_appears_with_status_new_and_the_submitted_fields");
+                    }
+                    vcheck!(env.verif_queue_len() == 2 && env.verif_queued(1) == (0, (a, m), None, None), "SUBMIT.queue_grows_by_exactly_the_new_order_instruction");
+                }
+                Err(_) => {
+                    vcheck!(!on_grid, "GRID.on_grid_creation_is_accepted");
+                    expect_queue = 1;
+                }
+            }
+        }
+        1 => {
+            env.cancel_order((a, id));
+            vcheck!(env.verif_queue_len() == 2 && env.verif_queued(1) == (1, (a, id), None, None), "SUBMIT.queue_grows_by_exactly_the_cancel_instruction");
+        }
+        _ => {
+            env.modify_order((a, id), np, nv);
+            vcheck!(env.verif_queue_len() == 2 && env.verif_queued(1) == (2, (a, id), np, nv), "SUBMIT.queue_grows_by_exactly_the_modify_instruction");
+        }
+    }
+    vcheck!(env.verif_queue_len() == expect_queue, "SUBMIT.queue_length");
+    vcheck!(env.verif_queued(0) == (w.kind, wid, w.np, w.nv), "SUBMIT.waiting_instructions_untouched");
+    let (x0, x1) = (env.market.get_order_book(0), env.market.get_order_book(1));
+    vcheck!(x0.verif_n_orders() == created[0] && x1.verif_n_orders() == created[1], "SUBMIT.only_the_addressed_asset_gets_the_new_order");
+    vcheck!(snapshot_equal_prefix::<N, L>(x0, &p0, cfg.ntrades, &old0) && snapshot_equal_prefix::<N, L>(x1, &p1, cfg.ntrades, &old1), "SUBMIT.live_books_unchanged_until_next_step");
+    vcheck!(sides_same(x0, &t0) && sides_same(x1, &t1), "SUBMIT.side_indexes_untouched");
+    vcheck!(l2_equal(&env.level_2_data[0], &keep0) && l2_equal(&env.level_2_data[1], &keep1), "SUBMIT.cached_level_2_snapshots_untouched");
+    vcheck!(env.trade_vols[0].is_empty() && env.trade_vols[1].is_empty() && env.level_2_data_records[0].prices.0.is_empty() && env.level_2_data_records[1].prices.0.is_empty(), "SUBMIT.recorded_histories_untouched");
+    vcover!(which == 1 && w.kind == 1 && wid == (a, id), "cover.duplicate_cancel_of_the_same_order");
+    vcover!(which == 0 && created[a] == m + 1, "cover.order_created_on_the_addressed_asset");
+    core::mem::forget(env);
+    core::mem::forget(t0);
+    core::mem::forget(t1);
+}
+
 // (generic parameters named as in the crate: Kani compares stub signatures nominally)
 impl<const ASSETS: usize, const LEVELS: usize> MarketEnv<ASSETS, LEVELS> {
     /// Stand-in for `MarketEnv::place_order` in whole-`update` agent harnesses (see
@@ -195,6 +290,15 @@ impl<const ASSETS: usize, const LEVELS: usize> MarketEnv<ASSETS, LEVELS> {
 }
 
 vharnesses! {
+    #[cfg_attr(kani, kani::unwind(6))]
+    #[cfg_attr(kani, kani::stub(bourse_book::Market::process_event, bourse_book::Market::verif_log_event))]
+    fn market_env_submit_place_asset0() { market_submit::<2, 2>(1, LOG1, 0, 0) }
+    #[cfg_attr(kani, kani::unwind(6))]
+    fn market_env_submit_place_asset1() { market_submit::<2, 2>(1, LOG1, 0, 1) }
+    #[cfg_attr(kani, kani::unwind(6))]
+    fn market_env_submit_cancel() { market_submit::<2, 2>(1, LOG1, 1, usize::MAX) }
+    #[cfg_attr(kani, kani::unwind(6))]
+    fn market_env_submit_modify() { market_submit::<2, 2>(1, LOG1, 2, usize::MAX) }
     #[cfg_attr(kani, kani::unwind(6))]
     #[cfg_attr(kani, kani::stub(bourse_book::Market::process_event, bourse_book::Market::verif_log_event))]
     fn market_env_step_loop_b2() { market_step_loop::<2, 2, 2>(1, 0) }
